@@ -507,7 +507,7 @@ func (ro *Roster) Search(eID network.ServerIdentityID) (int, *network.ServerIden
 // Get simply returns the entity that is stored at that index in the entitylist
 // returns nil if index error
 func (ro *Roster) Get(idx int) *network.ServerIdentity {
-	if idx < 0 || idx > len(ro.List) {
+	if idx < 0 || idx >= len(ro.List) {
 		return nil
 	}
 	return ro.List[idx]
